@@ -57,6 +57,10 @@ Ltac hstep := match goal with
               | |- _ = Some (if ?c then _ else _, _) => split_on c
               end; cbv beta iota.
 
+Definition set_height_name : string := "DefaultStore.SetHeight".
+Definition save_name : string := "DefaultStore.SaveBlockData".
+Definition commit_call : gval := VEff "batch.Commit" [VUnit].
+
 (* ---- SetHeight / Height ---------------------------------------------------------------------------------- *)
 (* what the datastore answers to Get(height key): not found | an error | bytes of the right length (a height) or not *)
 Inductive getres := GNotFound | GErr | GHeight (cur : N) | GBadLength.
